@@ -228,10 +228,13 @@ theorem sepStable_others : (mwOfSep (· != .plus)).all (fun x => commentGaps.all
 end sepStable
 
 /-! pins of what the hand model of the token actions assumes about the live lexer -/
-/-- only these token types have an action function; QUOTE_STRING, DQUOTE_STRING, VARIABLE, SYSTEM_VARIABLE are
-modelled by `action`; ID, FLOAT, INTEGER are `return t` (checked on every token of the correspondence stream) -/
-theorem pin_tokenFuncs : C16Data.tokenFuncs =
-    ["DQUOTE_STRING","FLOAT","ID","INTEGER","QUOTE_STRING","SYSTEM_VARIABLE","VARIABLE","newline"] := by decide
+/-- the token types that have an action function AND are not ignored are exactly these seven; QUOTE_STRING,
+DQUOTE_STRING, VARIABLE, SYSTEM_VARIABLE are modelled by `action`; ID, FLOAT, INTEGER are `return t` (checked on every
+token of the correspondence stream).  Action functions of *ignored* tokens (`newline`, since 582d86b also
+`multi_comment`) yield no token — SLY drops a token whose function returns nothing or whose type is in
+`_ignored_tokens` — they only do `lineno` bookkeeping, which the theorems leave arbitrary (`Seg.dl`, any `lineno`s). -/
+theorem pin_tokenFuncs : C16Data.tokenFuncs.filter (fun f => !C16Data.ignoredTokens.contains f) =
+    ["DQUOTE_STRING","FLOAT","ID","INTEGER","QUOTE_STRING","SYSTEM_VARIABLE","VARIABLE"] := by decide
 /-- no other token action assigns to `t.value` (ID, FLOAT, INTEGER, newline are `return t` / bookkeeping) -/
 theorem pin_rewriting : C16Data.rewritingFuncs.all
     (fun f => ["DQUOTE_STRING","QUOTE_STRING","SYSTEM_VARIABLE","VARIABLE"].contains f) = true := by decide
